@@ -25,6 +25,7 @@ type HarnessCfg struct {
 	Lemma       string            `json:"lemma"`
 	Unwind      int               `json:"unwind"`
 	UnwindFn    map[string]int    `json:"unwind_fn"`
+	UnwindAssume map[string]int   `json:"unwind_assume"` // loops in these functions are *assumed* to exit within K symbolic iterations (rejection sampling)
 	Tiers       []string          `json:"tiers"`
 	Params      map[string]int    `json:"params"`
 	ParamsTier  map[string]map[string]int `json:"params_tier"`
@@ -40,6 +41,7 @@ type HarnessCfg struct {
 	ExpectPanic bool              `json:"expect_panic"`
 	AssertMs    int               `json:"assert_ms"`
 	Guarded     []string          `json:"guarded"`
+	Real        []string          `json:"real"` // models disabled for this harness (the real SSA body is executed)
 }
 
 type PropCfg struct {
